@@ -20,7 +20,7 @@ FAULTS = Profile(write_exc=("SerialException", "OSError"), read_exc=("SerialExce
                  latency=(0, 26), content=("err", "nameerr", "wrong"), silent=True,
                  read_window=2)
 
-CONNECT_ENVS = ("ok", "nonebb", "openfail", "silent")
+CONNECT_ENVS = ("ok", "nonebb", "openfail", "silent", "oldfw", "versionless", "missingname")
 
 
 def _factory(env, chooser, ports):
@@ -31,6 +31,10 @@ def _factory(env, chooser, ports):
             board = EBB3Board(banner="Hello from some other device")
         elif env == "silent":
             board = EBB3Board(version=None)
+        elif env == "oldfw":
+            board = EBB3Board(version="2.8.1")
+        elif env == "versionless":
+            board = EBB3Board(banner="EBBv13_and_above EB Firmw")
         else:
             board = EBB3Board(version="3.0.2", nickname="Axi")
         port = FakePort(board, chooser, QUIET)
@@ -98,7 +102,7 @@ def run_history(chooser, steps):
         elif kind == "connect":
             env = step[1]
             with connect_env(_factory(env, chooser, ports)):
-                ret, exc = call(obj, "connect", ())
+                ret, exc = call(obj, "connect", ("NoSuchBoard",) if env == "missingname" else ())
             if exc is not None:
                 viols.append((f"connect_raise:{env}", f"{where}connect() [{env}] raised "
                               f"{type(exc).__name__}: {exc}"))
@@ -219,7 +223,12 @@ def run(ctx):
              ([("op", ("bootload()", "bootload", ()))], []),
              ([("disconnect",), ("connect", "nonebb")], []),
              ([("disconnect",), ("connect", "openfail")], []),
-             ([("disconnect",), ("connect", "silent")], [])]
+             ([("disconnect",), ("connect", "silent")], []),
+             ([("disconnect",), ("connect", "oldfw")], []),
+             ([("disconnect",), ("connect", "versionless")], []),
+             ([("disconnect",), ("connect", "missingname")], []),
+             ([("never",), ("connect", "oldfw")], []),
+             ([("never",), ("connect", "missingname")], [])]
     work = [(steps, vector, ops) for (steps, vector, _err) in
             sorted(blocked.values(), key=lambda v: repr(v[:2]))]
     work += [(steps, vector, ops) for steps, vector in seeds]
@@ -237,8 +246,9 @@ def run(ctx):
         "distinct_nontrivial": cnt.get("blocked_transitions_checked", 0),
         "rule": "phase 1: every request method (introspected) from the healthy state under "
                 "every environment vector with <= bound deviations -> blocked states; phase 2/3: "
-                "from every blocked state (and 7 not-connected states) every method, then "
-                "disconnect / connect(ok, non-EBB, open fails, silent, without disconnect) and "
+                "from every blocked state (and 12 not-connected states) every method, then "
+                "disconnect / connect(ok, non-EBB, open fails, silent, old firmware, version-less "
+                "banner, name not found, without disconnect) and "
                 "every method again; non-trivial = transitions whose pre-state was error-latched "
                 "or not connected (zero-write, failure-value, no-raise, latch invariants checked)",
         "samples": samples,
